@@ -26,13 +26,14 @@ static PieceCount toPC(const std::vector<int>& pcs) {
 // ---- clock seam (as in the C12 harness): the k-th clock query made while armed delivers a "stop" to the running search (what
 // EngineControl::stopSearch does from the protocol thread: Search::timeLimit(0, 0)); the on-demand generator polls the clock while it builds.
 static long long clockQueries = 0, faultAt = -1;
-static bool armed = false;
+static bool armed = false, faultDelivered = false;
 static Search* armedSearch = nullptr;
 extern "C" int clock_gettime(clockid_t id, struct timespec* ts) {
     typedef int (*fn_t)(clockid_t, struct timespec*);
     static fn_t real = (fn_t)dlsym(RTLD_NEXT, "clock_gettime");
     int rc = real(id, ts);
-    if (armed && id == CLOCK_MONOTONIC) { long long q = clockQueries++; if (q == faultAt && armedSearch) armedSearch->timeLimit(0, 0); }
+    // the stop is delivered at the first query with index >= faultAt made while the Search object exists (queries made by its constructor come earlier)
+    if (armed && id == CLOCK_MONOTONIC) { long long q = clockQueries++; if (faultAt >= 0 && q >= faultAt && armedSearch && !faultDelivered) { faultDelivered = true; armedSearch->timeLimit(0, 0); } }
     return rc;
 }
 
@@ -107,12 +108,14 @@ static void checkRoot(sd::Env& env, TBGenerator<VectorStorage>& gen, Position& p
 static void cancelCase(TBGenerator<VectorStorage>& gen, Position& pos, bool is3men, const std::string& cls, long long k) {
     W->crumb(cls + " cancelled-build k=" + std::to_string(k) + " " + TextIO::toFEN(pos));
     sd::Env env(1024 * 1024);
-    sd::Params p; p.maxDepth = -1; p.maxNodes = -1; p.stopAfterPolls = 1000000; p.minTimeMs = 100000000; p.maxTimeMs = 100000000;   // time-only search, like go infinite
+    // time-only search, like go infinite; the counting stop handler is only a safety net for roots whose search makes no clock query after the build
+    sd::Params p; p.maxDepth = -1; p.maxNodes = -1; p.stopAfterPolls = 300; p.minTimeMs = 100000000; p.maxTimeMs = 100000000;
     p.onSearchCreated = [&](Search& sc) { armedSearch = &sc; };
-    clockQueries = 0; faultAt = k; armed = true;
+    clockQueries = 0; faultAt = k; faultDelivered = false; armed = true;
     sd::Outcome first = sd::run(env, pos, p);
     armed = false; armedSearch = nullptr;
     R.count("cancelled_first_searches"); R.count("transitions", (long long)first.lines.size());
+    R.count(faultDelivered ? "stops_delivered" : "stops_not_delivered");
     R.outcome(std::string("resident-after-cancel:") + (env.tt.tbGen ? "yes" : "no"));
     checkRoot(env, gen, pos, is3men, cls + "+after-cancel@" + std::to_string(k));
 }
